@@ -38,11 +38,11 @@ ASSUMPTIONS = c01.ASSUMPTIONS[:3] + [
     "containers are picklable plain dict/list/object containers",
 ]
 BOUNDS = {
-    "quick": "one manager per node class (all classes found by introspection) and every manager of <=1 definition and one in eight of those with 2 definitions over {a,n.x,n.y,l0}; follow-up sequences of 1 operation (2 for a few managers); one-sided assignment to every location",
+    "quick": "one manager per node class (all classes found by introspection) and every manager of <=1 definition and one in eight of those with 2 definitions over {a,n.x,n.y,l0}; follow-up sequences of 1 operation (2 for a few managers); one-sided assignment to every location; the managers of <=1 definition (and some of 2) are also pickled while frozen (the copy must refuse exactly what the original refuses)",
     "thorough": "managers of <=3 definitions, follow-up sequences of <=3 operations, both builds",
 }
 OUTSIDE = "cross-process / cross-version pickles; containers that are not picklable"
-REQUIRED_CLASSES = ["roundtrip", "node_class_manager", "followup_both", "independence", "refattr_container"]
+REQUIRED_CLASSES = ["roundtrip", "node_class_manager", "followup_both", "independence", "refattr_container", "pickled_frozen"]
 PROFILE_CASES = 4
 TASKS_PER_CHILD = 30
 LOCS = ["a", "n.x", "n.y", "l0"]
@@ -254,6 +254,11 @@ def run_case(ex, case):
         for (t, dsc) in case["defs"]:
             st.apply(("expr", t, c01._tup(dsc)))
         special = False
+    if case.get("frozen"):
+        # the manager is pickled while its tree is frozen: the copy must refuse what the original refuses
+        st.m.freeze_tree()
+        st.hist.append("freeze_tree()")
+        note(ex, "pickled_frozen")
     det = {"history": list(st.hist)}
     try:
         blob = pickle.dumps(st.m)
@@ -340,6 +345,9 @@ def run_case(ex, case):
             if not ex.prove(eq(U.getval(st.d, M), U.getval(cp.d, M)),
                             f"after `{st.hist[-1]}` on both, location {M} differs between original and restored manager", det):
                 return
+    if case.get("frozen"):
+        st.m.unfreeze_tree()
+        cp.m.unfreeze_tree()
     # independence: assign on one only, in both directions
     L = locs[ex.choose(len(locs))]
     for which in (0, 1):
@@ -399,4 +407,6 @@ def cases(tier):
                         out.append({"mode": "hist", "build": b, "locs": LOCS, "defs": [list(c) for c in combo], "K": K, "first": f})
                 else:
                     out.append({"mode": "hist", "build": b, "locs": LOCS, "defs": [list(c) for c in combo], "K": K})
+                    if k <= 1 or n % 64 == 0:
+                        out.append({"mode": "hist", "build": b, "locs": LOCS, "defs": [list(c) for c in combo], "K": K, "frozen": True})
     return out
